@@ -50,6 +50,10 @@ CLAIMED = {
          "Random IR trees covering every Expression/Param/BuiltInOp/CompilerOp/Coerce variant, all lowered example and generated programs are encoded and decoded and compared in canonical form (plus find_params/find_queries and the compiled transaction after identical application); 12 kinds of hostile byte strings and a list of version strings must yield Ok/Err without panic, abort or hang. Held = no difference and no crash on anything generated.",
          "equality is equality of the canonicalised Serialize output; a field hidden from Serialize would be invisible; hang = wall-clock watchdog reproduced alone with 3x budget",
          "DESIGN.md section 3 C11"),
+ "C12": ("exploration", "runtime monitor: totality oracle (panic hook, worker signals, watchdog) + logical step budget on the parser (pest call limit) + CPU-time growth probe, over grammar-derived inputs, token mutations and exhaustive nesting sweeps",
+         "Inputs derived from tx3.pest itself (read at run time), 12 token-level mutators over the examples and generated programs, 30 recursive constructs at every nesting depth 1..64 and 7 families of linearly growing definition chains are parsed and analysed in worker subprocesses; every call must return, the parser within a step budget three orders of magnitude above linear behaviour, and CPU time must not grow exponentially with program length. Held = no panic / abort / budget overrun apart from the listed known finding.",
+         "termination of analyze is observed by watchdog and growth probe only (it has no step counter); memory is capped at 6 GiB per worker",
+         "DESIGN.md section 3 C12"),
  "C14": ("exploration", "runtime monitor: totality oracle (panic hook with in-repo frame extraction, worker signal exits, per-case watchdog) over every public back-end entry point, checked (overflow-checks + debug-assertions) and release profiles",
          "Lowered generator templates with type-correct but hostile arguments, stores and protocol parameters, and random well-formed IR trees a client could send, are pushed through find_params, find_queries, is_constant, apply_args, apply_fees, Node::apply(compiler), reduce, apply_inputs, compile, inputs::resolve and resolve_tx in worker subprocesses; every call must return Ok or Err. Held = no panic, abort or reproducible overrun on any driven call.",
          "arguments are type-correct in the property's sense; stores follow the trait contract and hold amounts below 2^80 in magnitude; nothing is asserted about which of Ok/Err comes back",
